@@ -386,7 +386,24 @@ func (w *World) BuildEthOp(op *Op) *Sent {
 	e.Data = data
 	e.Value = relNum(op.Val, new(big.Int), "_")
 	if op.Typ >= 1 && strings.Contains(op.Mut, "al") {
-		e.Access = ethtypes.AccessList{{Address: wl.Addr, StorageKeys: []common.Hash{{1}}}}
+		// EIP-2930 lists of several shapes: the sender, the destination with the slots the templates use, repeated
+		// addresses and keys (each entry is paid for), a cold third party
+		slot := func(i int) common.Hash { return common.BigToHash(big.NewInt(int64(i))) }
+		dest := wl.Addr
+		if e.To != nil {
+			dest = *e.To
+		}
+		other := w.wallet(op.W + 1).Addr
+		switch (op.W + len(data) + len(op.Gas)) % 4 {
+		case 0:
+			e.Access = ethtypes.AccessList{{Address: wl.Addr, StorageKeys: []common.Hash{{1}}}}
+		case 1:
+			e.Access = ethtypes.AccessList{{Address: dest, StorageKeys: []common.Hash{slot(0), slot(1), slot(2)}}, {Address: wl.Addr}}
+		case 2:
+			e.Access = ethtypes.AccessList{{Address: dest, StorageKeys: []common.Hash{slot(0), slot(1), slot(0)}}, {Address: other}, {Address: dest, StorageKeys: []common.Hash{slot(1)}}}
+		default:
+			e.Access = ethtypes.AccessList{{Address: other, StorageKeys: []common.Hash{slot(5)}}, {Address: dest, StorageKeys: []common.Hash{slot(0), slot(1), slot(2), slot(3), slot(4), slot(5), slot(6), slot(7), slot(8)}}}
+		}
 	}
 	intr := IntrinsicGas(data, e.Access, create)
 	e.Gas = relNum(op.Gas, new(big.Int).SetUint64(intr), "i").Uint64()
